@@ -374,7 +374,7 @@ def finish (h : Header) (tableFrom final : List RawSample) (parsed : List Mappin
     functions := [], comments := [], docURL := [], dropFrames := h.dropFrames, keepFrames := h.keepFrames,
     timeNanos := 0, durationNanos := h.durationNanos, periodType := h.periodType, period := h.period }
 
-/-! ### `addLegacyFrameInfo` constants (pinned; see tools/extract/legacyregex.go) -/
+/-! ### `addLegacyFrameInfo` constants (observable as DropFrames/KeepFrames; compared on every case) -/
 def allocRxStr : Str := asc "calloc|cfree|malloc|free|memalign|do_memalign|(__)?posix_memalign|pvalloc|valloc|realloc|tcmalloc::.*|tc_calloc|tc_cfree|tc_malloc|tc_free|tc_memalign|tc_posix_memalign|tc_pvalloc|tc_valloc|tc_realloc|tc_new|tc_delete|tc_newarray|tc_deletearray|tc_new_nothrow|tc_newarray_nothrow|malloc_zone_malloc|malloc_zone_calloc|malloc_zone_valloc|malloc_zone_realloc|malloc_zone_memalign|malloc_zone_free|runtime\\..*|BaseArena::.*|(::)?do_malloc_no_errno|(::)?do_malloc_pages|(::)?do_malloc|DoSampledAllocation|MallocedMemBlock::MallocedMemBlock|_M_allocate|__builtin_(vec_)?delete|__builtin_(vec_)?new|__gnu_cxx::new_allocator::allocate|__libc_malloc|__malloc_alloc_template::allocate|allocate|cpp_alloc|operator new(\\[\\])?|simple_alloc::allocate"
 def allocSkipRxStr : Str := asc "runtime\\.panic|runtime\\.reflectcall|runtime\\.call[0-9]*"
 def cpuProfilerRxStr : Str := asc "ProfileData::Add|ProfileData::prof_handler|CpuProfiler::prof_handler|__pthread_sighandler|__restore"
